@@ -109,7 +109,7 @@ def w_frag_random(ops, rng, n):
         op_a(ops, s)
 
 
-def w_structured(ops, rng, n):
+def structured_strings():
     """exhaustive small products over the structured parts of the fragment, where defects are PAIR / TRIPLE facts:
     Hangul jamo and syllables at the boundaries of the L / V / T ranges (composition arithmetic), base letters with
     every ordering of two marks (canonical reordering + composition + the 'already NFC' shortcut), and each of them
@@ -119,11 +119,12 @@ def w_structured(ops, rng, n):
     L, V, T = fr(0x1100, 0x1113), fr(0x1161, 0x1176), fr(0x11A7, 0x11C3)
     S = fr(0xAC00, 0xD7A3)
     seen = set()
+    out = []
 
     def emit(s):
         if s not in seen:
             seen.add(s)
-            op_a(ops, s)
+            out.append(s)
     for l in L:
         for v in V:
             emit(l + v)
@@ -150,6 +151,28 @@ def w_structured(ops, rng, n):
             emit('x' + wide + m1 + '.com')
             for m2 in MARKS:
                 emit(wide + m1 + m2)
+    return out
+
+
+def w_structured(ops, rng, n):
+    for s in structured_strings():
+        op_a(ops, s)
+
+
+def w_structured_eqv(ops, rng, n):
+    """C16 on the structured strings: each against its canonical decomposition / composition, and with a sibling label
+    spelled precomposed vs decomposed (the normaliser then runs, or not, on the WHOLE domain): the results must agree"""
+    for s in structured_strings():
+        if all(ord(c) < 128 for c in s):
+            continue
+        d, c = ud.normalize('NFD', s), ud.normalize('NFC', s)
+        if d != s:
+            op_q(ops, s, d)
+        if c != s:
+            op_q(ops, s, c)
+        if '.' not in s:
+            op_q(ops, s + '.\u00e9', s + '.e\u0301')
+            op_q(ops, '\u00e9.' + s, 'e\u0301.' + s)
 
 
 def w_wpt_inputs(ops, rng, n):
